@@ -1,10 +1,12 @@
 """C12 — symmetry, rigid-motion invariance, scaling (structural clauses)."""
+from . import scopes
 from ..core.report import DOMAIN_D
 from ..rules import frame, degree, mink, roles
 from .common import e2
 
 
 def run(idx, rep, tier):
+    rep.set_scope(scopes.scope(idx, "C12"))
     rep.explanation = (
         "Rigid-motion equivariance is decided structurally by frame consistency (engine E2, R-FRAME): every rotation/pose is "
         "applied to vectors of its source frame, sums/dots/crosses combine one frame, results of pose-taking functions are "
